@@ -54,7 +54,9 @@ def block_of(stmt: ast.stmt) -> tuple[list[ast.stmt], int]:
 
 
 def guards(node: ast.AST, stop: Optional[ast.AST] = None) -> list[tuple[ast.expr, bool]]:
-    """(test, polarity) for every enclosing if/while/ifexp between *node* and *stop* (innermost first)."""
+    """(test, polarity) for every condition under which *node* executes, between *node* and *stop* (innermost first):
+    enclosing if/while/ifexp branches, the earlier operands of a short-circuit and/or, and guard clauses - earlier
+    statements 'if T: <cannot fall through>' of an enclosing block contribute (T, False)."""
     out = []
     child = node
     for a in ancestors(node):
@@ -70,9 +72,42 @@ def guards(node: ast.AST, stop: Optional[ast.AST] = None) -> list[tuple[ast.expr
                 out.append((a.test, True))
             elif child is a.orelse:
                 out.append((a.test, False))
+        elif isinstance(a, ast.BoolOp) and child in a.values:
+            for v in a.values[:a.values.index(child)]:
+                out.append((v, isinstance(a.op, ast.And)))
+        # guard clauses among the earlier siblings of *child* in a statement block of *a*
+        for fld in ("body", "orelse", "finalbody"):
+            blk = getattr(a, fld, None)
+            if isinstance(blk, list) and child in blk:
+                for st in blk[:blk.index(child)]:
+                    if isinstance(st, ast.If) and not st.orelse and not may_fall_through(st.body):
+                        out.append((st.test, False))
+                    elif isinstance(st, ast.If) and st.orelse and not may_fall_through(st.orelse) and may_fall_through(st.body):
+                        out.append((st.test, True))
         if isinstance(a, FUNCS):
             break
         child = a
+    return out
+
+
+def atomic_guards(node: ast.AST, stop: Optional[ast.AST] = None) -> list[tuple[ast.expr, bool]]:
+    """guards() decomposed into atoms: (A and B, True) -> A, B true; (A or B, False) -> A, B false; not X flips"""
+    out: list[tuple[ast.expr, bool]] = []
+
+    def rec(t: ast.expr, pol: bool) -> None:
+        if isinstance(t, ast.UnaryOp) and isinstance(t.op, ast.Not):
+            rec(t.operand, not pol)
+        elif isinstance(t, ast.BoolOp) and ((isinstance(t.op, ast.And) and pol) or (isinstance(t.op, ast.Or) and not pol)):
+            for v in t.values:
+                rec(v, pol)
+        elif isinstance(t, ast.Compare) and len(t.ops) == 1 and not pol and isinstance(t.ops[0], (ast.NotIn, ast.In, ast.IsNot, ast.Is, ast.NotEq, ast.Eq)):
+            flip = {ast.NotIn: ast.In, ast.In: ast.NotIn, ast.IsNot: ast.Is, ast.Is: ast.IsNot, ast.NotEq: ast.Eq, ast.Eq: ast.NotEq}
+            out.append((ast.copy_location(ast.Compare(left=t.left, ops=[flip[type(t.ops[0])]()], comparators=t.comparators), t), True))
+        else:
+            out.append((t, pol))
+
+    for t, pol in guards(node, stop):
+        rec(t, pol)
     return out
 
 
